@@ -364,7 +364,7 @@ def do_op(ctx, aid, oi, table, op):
         else:
             _ch(table, op[1]).close()
         return ("ok",)
-    if k == "waitclose":
+    if k in ("waitclose", "waitclose_open"):
         to = op[2] if len(op) > 2 else None
         _ch(table, op[1]).waitclose(to) if to is not None else _ch(table, op[1]).waitclose()
         return ("ok",)
@@ -632,7 +632,7 @@ def _filedata(w):
 # ---------------------------------------------------------------------------
 
 VARIANTS = ("close_creator", "close_receiver", "drop_both", "cb_close", "close_both", "drop_creator", "cb_close_hold",
-            "close_creator_hold", "cb_drop_hold")
+            "close_creator_hold", "cb_drop_hold", "cb_drop_errclose_hold")
 NESTS = ("bare", "list", "tuple", "dict")
 
 
@@ -652,6 +652,18 @@ def _nest(c, how):
     return {"x": {"y": [c]}}
 
 
+def _release(entry):
+    c, variant = entry
+    if variant == "cb_drop_errclose_hold":
+        # the holder ends the conversation with an error; the creator's side (channel object gone, callback
+        # still registered) can only warn about it, but has to forget the conversation all the same
+        try:
+            c.close("cycle ended with an error")
+        except OSError:
+            pass
+    del c, entry
+
+
 def _cycles(ctx, aid, oi, table, op):
     """["cycles_i"|"cycles_w", via, n, seed, gc_every]  - returns ("cycles", n_done, ids, anomalies)"""
     me = "i" if op[0] == "cycles_i" else "w"
@@ -666,7 +678,7 @@ def _cycles(ctx, aid, oi, table, op):
     done = 0
     for k, (creator, variant, nest) in enumerate(plan):
         if len(held) > 3:
-            del held[0]
+            _release(held.pop(0))
         tok = "cyc%d" % k
         if creator == me:
             c = gw.newchannel()
@@ -705,12 +717,14 @@ def _cycles(ctx, aid, oi, table, op):
             if variant in ("close_receiver", "close_both"):
                 c.close()
             if variant.endswith("_hold"):
-                held.append(c)  # the creator's close arrives while this side still holds its end
+                # the creator's close / last-message arrives while this side still holds its end
+                held.append((c, variant))
             del c, item
             via.send(("ack", k))
         done += 1
         if gc_every and (k + 1) % gc_every == 0:
             gc.collect()
-    del held[:]
+    while held:
+        _release(held.pop(0))
     gc.collect()
     return ("cycles", done, ids, bad)
